@@ -117,7 +117,7 @@ theorem tzobOffs_gen (z : Zone) (wf : WF z) (i : Inst) (hH : i.H < 24) (hI : I32
   rw [not_allDay i hH]
   simp only [Bool.false_eq_true, if_false]
   unfold ep at *
-  rw [wrap32_of_I32 _ hI, findZrng_eq z wf _ hI]
+  rw [clamp32_of_I32 _ hI, findZrng_eq z wf _ hI]
   simp only [Option.map_some, rngAt_offs]
   rfl
 
